@@ -58,6 +58,8 @@ def run(rep, pid, cfgs, modes='ctl-unsafe,ctl-safe,sync', module='Gen', replay_c
             res_path = os.path.join(d, name + '.json')
             vlib.run_harness([replay_cmd, '-in', gen, '-out', res_path, '-modes', modes] + list(extra_args), timeout=3000)
             res = json.load(open(res_path))
+            if res.get('skipped_after_hangs'):
+                rep.inconclusive.append('%s: %d cases skipped after %s hangs (circuit breaker)' % (name, res['skipped_after_hangs'], 12))
             if res['cases'] == 0:
                 raise vlib.Infra('generator %s produced no case' % name)
             rep.cov['evaluations'] += res['replays']
